@@ -67,6 +67,11 @@ pub fn search_roots(seed: u64, n: usize, h: &ZobristHasher, swings: bool) -> Vec
                     workload::queen_storm_position(&mut rng)
                 }
             }
+            // extreme material (5-9 queens against a nearly bare king): evaluations beyond 10 000
+            5 if swings && i % 12 == 5 => match crate::mon::c14::extreme_material_position(&mut rng) {
+                Some(p) => p,
+                None => starts[rng.below(starts.len() as u64) as usize].clone(),
+            },
             _ => starts[rng.below(starts.len() as u64) as usize].clone(),
         };
         i += 1;
